@@ -120,7 +120,7 @@ func (w *World) fn(name string) *ssa.Function {
 func (w *World) pkg(path string) *packages.Package { return w.all[path] }
 
 func (w *World) engine(depth, loops int) *Engine {
-	return &Engine{prog: w.prog, fset: w.fset, modPrefix: modPath, maxDepth: depth, loopBound: loops, maxPaths: 20000, funcByName: w.funcs, opaque: map[string]bool{}}
+	return &Engine{prog: w.prog, fset: w.fset, modPrefix: modPath, maxDepth: depth, loopBound: loops, maxPaths: 20000, funcByName: w.funcs, opaque: map[string]bool{}, hof: map[string]int{}}
 }
 
 func (w *World) pos(p token.Pos) string {
